@@ -8,6 +8,12 @@ import facts
 from runner import Check
 
 PROPS = {
+    "C07": ("rules_c07", "proof",
+            "Decided: a units-of-measure typing derivation (location: Point, scale: L, rate: 1/L, shape: dimensionless) of constructor "
+            "-> inferred field units -> sample for 13 families x f32/f64, and of from_zscore with std_dev : L/Z, z : Z. A well-typed program "
+            "is, over the reals, equivariant under x -> a + b x (b > 0), and since every branch condition compares like units the control "
+            "flow and the number of RNG words cannot depend on location/scale. Not decided: the rounding error of the map itself, "
+            "Pert::with_mean, negative scale beyond what the typing implies."),
     "C03": ("rules_c03", "other",
             "Decided, three clauses: (a) no single RNG draw pinned to a special point (closed end-point, exact 0 or 1/2, extreme word) adds "
             "NaN/±inf to a sampler's result, for every sampler family x float type x constructor outcome with finite arguments — by "
